@@ -49,6 +49,13 @@ def cases(tier, seed, flavour):
                         yield {'fam': 'planted', 'dims': d, 'n': n, 'p': p, 'kind': kind, 'variant': v + nvar * seed}
                 for v in range(5):
                     yield {'fam': 'qp', 'dims': d, 'n': n, 'p': p, 'variant': v + 5 * seed}
+        # two equality constraints (the equality block of the KKT systems is then a genuine matrix)
+        if d in ({'l': 2, 'q': [], 's': []}, {'l': 0, 'q': [3], 's': []}, {'l': 1, 'q': [2], 's': [2]}, {'l': 0, 'q': [], 's': [2, 2]}):
+            for n in (3, 4):
+                for kind in ('strict', 'pinf', 'dinf'):
+                    for v in range(2):
+                        yield {'fam': 'planted', 'dims': d, 'n': n, 'p': 2, 'kind': kind, 'variant': v + 2 * seed}
+                yield {'fam': 'qp', 'dims': d, 'n': n, 'p': 2, 'variant': seed}
         # as many variables as the rank assumption allows (n = p + number of independent cone coordinates, which for an
         # 's' block of order k is k(k+1)/2, not k or k^2): the boundary of the solvers' own dimension pre-check
         npk = R.cdim_packed(d)
